@@ -934,6 +934,8 @@ def _ancestors(e, pm):
 INCLUDE_FILES = {
     "inc_types.xml": '<?xml version="1.0"?>\n<types><type name="IncT" primitiveType="uint16"/><composite name="IncC"><type name="a" primitiveType="uint8"/></composite></types>\n',
     "inc_msg.xml": '<?xml version="1.0"?>\n<root xmlns:sbe="http://fixprotocol.io/2016/sbe"><sbe:message name="IncM" id="901"><field name="f" id="1" type="uint8"/></sbe:message></root>\n',
+    # a message at the top level of the included file (the form sbeppc reads; the wrapped one above is skipped with a warning)
+    "inc_msg_top.xml": '<?xml version="1.0"?>\n<sbe:message name="IncTop" id="902"><field name="f" id="1" type="uint8"/><field name="g" id="2" type="IncT"/></sbe:message>\n',
     "inc_self.xml": '<?xml version="1.0"?>\n<include href="inc_self.xml"/>\n',
     "inc_a.xml": '<?xml version="1.0"?>\n<r><include href="inc_b.xml"/></r>\n',
     "inc_b.xml": '<?xml version="1.0"?>\n<r><include href="inc_a.xml"/></r>\n',
